@@ -4,7 +4,8 @@
     - types are erased, except for the three places where fc's lowering depends on whether a type is
       [unit] (a block's final expression, the result of a piped stage, the result of a partially
       applied function) — these carry a [bool];
-    - [(ctor Case …)] and [(matchu …)] carry the union's name;
+    - [(ctor Case …)] and [(matchu …)] carry the union's name; a record literal carries the declared field
+      order of its type beside the fields as written;
     - a parameter list [((u unit))] is the empty list and the argument list [((unit))] of a call to such
       a function is empty;
     - [(letfun f ps T B)] is [let f = fun ps -> B] (what fc's parser does: lfdToLetVar);
@@ -34,7 +35,8 @@ Inductive expr :=
 | EPipeCall (a:expr) (f:var) (args:list expr) (retunit:bool)    (* a |> f args   (f lacks its last argument) *)
 | EPipeExt (a:expr) (fn:libfn) (args:list expr) (retunit:bool)  (* a |> lib.F args *)
 | ETuple (es:list expr)
-| ERecord (name:string) (fields:list string) (es:list expr)
+| ERecord (name:string) (decl:list string) (fields:list string) (es:list expr)
+    (* fields / es: as written; decl: the record type's fields in declaration order (elaborator) *)
 | EField (e:expr) (f:string)
 | ECtor (uname cname:string) (arg:option expr)
 | EMatchU (e:expr) (uname:string) (arms:list (string * option var * block)) (def:option block)
@@ -266,9 +268,14 @@ Fixpoint eval (funs:fundefs) (n:nat) (env:senv) (e:expr) (t:trace) {struct n} : 
         check_unit u v t3
       else Stuck "not a source-level library function"
   | ETuple es => doo vs, t1 <- evals funs n env es t; Done (VTuple vs) t1
-  | ERecord name fields es =>
+  | ERecord name decl fields es =>
+      (* the initialisers run in the order written; the value holds the fields in declaration order *)
       doo vs, t1 <- evals funs n env es t;
-      if Nat.eqb (List.length fields) (List.length vs) then Done (VRec name (combine fields vs)) t1
+      if Nat.eqb (List.length fields) (List.length vs) then
+        match arrange decl (combine fields vs) with
+        | Some fs => Done (VRec name fs) t1
+        | None => Stuck "record: a declared field is not initialised"
+        end
       else Stuck "record: field count"
   | EField e f =>
       doo v, t1 <- eval funs n env e t;
